@@ -234,10 +234,12 @@ def run_compare(case, ctx):
     va = S.Vector(list(a))
     ops = CMP + (LOGIC if ka == "bool" and kb == "bool" else [])
     for name, op in ops:
-        for form in ("vector", "list", "tuple", "scalar"):
+        for form in ("vector", "list", "tuple", "scalar", "self"):
             if form == "scalar":
                 ys = [case["scalar"]] * len(a)
                 rhs = case["scalar"]
+            elif form == "self":
+                ys, rhs = a, va
             else:
                 ys = b
                 rhs = S.Vector(list(b)) if form == "vector" else (list(b) if form == "list" else tuple(b))
